@@ -95,6 +95,7 @@ fn main() {
     let mut hook_hits: BTreeMap<String, usize> = BTreeMap::new();
     let mut template_stats: Vec<Value> = vec![];
     let mut stop = false;
+    let fatal = std::cell::Cell::new(false);
 
     let mut handle = |prog: &Program,
                       ex: Result<Execution, hx::exec::EngineError>,
@@ -108,7 +109,18 @@ fn main() {
         let ex = match ex {
             Ok(e) => e,
             Err(e) => {
+                if cats.contains(&Cat::Panic) {
+                    // C07: a tracing call that does not return is the violation itself
+                    let path = format!("{}/{}-{}-s{}-p{}-blocked.json", args.replay_dir, args.prop, if args.cancelable { "cancelable" } else { "default" }, args.seed, k);
+                    let _ = std::fs::create_dir_all(&args.replay_dir);
+                    let doc = json!({"property": args.prop, "engine": "progsim", "mode": args.mode, "seed": args.seed, "program": k, "ops": ops_text(prog), "error": format!("{:?}", e)});
+                    let _ = std::fs::write(&path, serde_json::to_string_pretty(&doc).unwrap());
+                    violations.push(json!({"category": "Blocked", "signature": "call-did-not-return", "detail": format!("program {} ({}): a logical thread did not come back within the watchdog: {:?}", k, label, e), "replay": path}));
+                    fatal.set(true);
+                    return true;
+                }
                 inconclusive.push(format!("program {} ({}): {:?}", k, label, e));
+                fatal.set(true);
                 return false;
             }
         };
@@ -298,9 +310,10 @@ fn main() {
         let _ = &mut stop;
     } else {
         for k in 0..args.programs {
-            if t_start.elapsed().as_secs_f64() > args.time_limit {
+            if t_start.elapsed().as_secs_f64() > args.time_limit || fatal.get() {
                 break;
             }
+            eprintln!("P {}", k);
             let mut prng = Rng::new(args.seed.wrapping_mul(0x9E37_79B9_7F4A_7C15) ^ (k as u64).wrapping_mul(0xD1B5_4A32_D192_ED03));
             let pf = props::profile_for(&args.prop, args.cancelable, &mut prng);
             let prog = Gen::new(&mut prng, &pf, k as u64).generate();
